@@ -176,8 +176,9 @@ def closed_only(alts):
 def shorthand_cases(r, n):
     """(notation, text, kind, (a,b,c)) — kinds name the native rule evaluated by the extracted Coq function"""
     out = []
-    # the corner shapes first (a zero in each position: the written precision matters for "~>" and "~"), then random ones
-    fixed = [(1, 2, 0), (2, 0, 0), (0, 3, 0), (0, 0, 3), (7, 0, 8), (1, 9, 1)]
+    # the corner shapes first (a zero in each position: the written precision matters for "~>" and "~"; every zero/non-zero
+    # pattern of the three numbers, all-zero included: the caret rule branches on each), then random ones
+    fixed = [(1, 2, 0), (2, 0, 0), (0, 3, 0), (0, 0, 3), (7, 0, 8), (1, 9, 1), (0, 0, 0), (0, 0, 1), (0, 1, 0), (1, 0, 0), (0, 1, 1), (1, 0, 1)]
     for i in range(len(fixed) + n):
         a, b, c = fixed[i] if i < len(fixed) else (r.choice([0, 0, 1, 2, 7]), r.choice([0, 0, 1, 2, 3, 4, 9]), r.choice([0, 1, 3, 8]))
         t = f"{a}.{b}.{c}"
